@@ -4,6 +4,10 @@
 //   op solve : n*n entries (row major) then n rhs entries        (G: n diagonal entries then n rhs)
 //   op invert/det/hinv/hinvT : n*n entries                       (G: n diagonal entries)
 //   op nsq (kind D only): n = rows, piv = cols: non-square matrix -> every call must throw FMatrixError
+//   piv = 2: the call uses the DEFAULT argument (solve(x,b), invert(), determinant())
+//   kinds X / Y: matrices obtained through converting constructor / assignment / copy, mixed vector types
+//   op seq: det, solve, invert, det, invert, solve on ONE object
+//   built a second time with -DDUNE_FMatrix_WITH_CHECKING (singular n<=3 must throw FMatrixError)
 // output: "OK <numbers> | U" (U: A and b unchanged after the call, MOD otherwise), "EXC FMatrixError | U", "EXC DivByZero | U"
 #include <config.h>
 #include <cstdio>
@@ -28,39 +32,86 @@ template<class M> static bool sameM(const M& A, const VL& v, int n)
 template<class V> static bool sameV(const V& b, const VL& v, int off, int n)
 { for (int i = 0; i < n; i++) if (b[i].v != GFp(v[off + i]).v) return false; return true; }
 
-template<class M, class V>
-static std::string run_dense(M& A, V& x, V& b, const std::string& op, int n, bool piv, const VL& v)
+// op seq: a multi-step history on ONE object: det, solve, invert (in place), det of the inverse, invert back, solve again
+template<class M, class VX, class V>
+static std::string run_seq(M& A, VX& x, V& b, int n, int piv, const VL& v)
+{
+  std::ostringstream o; const char* stage = "det";
+  for (int i = 0; i < n; i++) { b[i] = GFp(v[n * n + i]); x[i] = GFp(0); }
+  try {
+    GFp d = A.determinant(piv != 0); o << "OK " << d.v << " ;";
+    stage = "solve"; A.solve(x, b, piv != 0); for (int i = 0; i < n; i++) o << " " << x[i].v; o << " ;";
+    stage = "invert"; A.invert(piv != 0); for (int i = 0; i < n; i++) for (int j = 0; j < n; j++) o << " " << A[i][j].v; o << " ;";
+    stage = "det2"; GFp d2 = A.determinant(piv != 0); o << " " << d2.v << " ;";
+    stage = "invert2"; A.invert(piv != 0);
+    stage = "solve2"; for (int i = 0; i < n; i++) x[i] = GFp(0); A.solve(x, b, piv != 0); for (int i = 0; i < n; i++) o << " " << x[i].v;
+    o << " | " << ((sameM(A, v, n) && sameV(b, v, n * n, n)) ? "U" : "MOD");
+  }
+  catch (FMatrixError&) { o.str(""); o << "EXC FMatrixError @" << stage; }
+  catch (C02DivByZero&) { o.str(""); o << "EXC DivByZero @" << stage; }
+  return o.str();
+}
+
+template<class M, class VX, class V>
+static std::string run_dense(M& A, VX& x, V& b, const std::string& op, int n, int piv, const VL& v, bool fill = true)
 {
   std::ostringstream o;
-  for (int i = 0; i < n; i++) for (int j = 0; j < n; j++) A[i][j] = GFp(v[i * n + j]);
+  if (fill) for (int i = 0; i < n; i++) for (int j = 0; j < n; j++) A[i][j] = GFp(v[i * n + j]);
+  if (op == "seq") return run_seq(A, x, b, n, piv, v);
   if (op == "solve") {
     for (int i = 0; i < n; i++) { b[i] = GFp(v[n * n + i]); x[i] = GFp(0); }
     const M& Ac = A; const V& bc = b;
     std::string r;
-    try { Ac.solve(x, bc, piv); o << "OK"; for (int i = 0; i < n; i++) o << " " << x[i].v; }
+    try { if (piv == 2) Ac.solve(x, bc); else Ac.solve(x, bc, piv != 0); o << "OK"; for (int i = 0; i < n; i++) o << " " << x[i].v; }
     catch (FMatrixError&) { o << "EXC FMatrixError"; }
     catch (C02DivByZero&) { o << "EXC DivByZero"; }
     o << " | " << ((sameM(A, v, n) && sameV(b, v, n * n, n)) ? "U" : "MOD");
   } else if (op == "det") {
     const M& Ac = A;
-    try { GFp d = Ac.determinant(piv); o << "OK " << d.v; }
+    try { GFp d = (piv == 2) ? Ac.determinant() : Ac.determinant(piv != 0); o << "OK " << d.v; }
     catch (FMatrixError&) { o << "EXC FMatrixError"; }
     catch (C02DivByZero&) { o << "EXC DivByZero"; }
     o << " | " << (sameM(A, v, n) ? "U" : "MOD");
   } else if (op == "invert") {
-    try { A.invert(piv); o << "OK"; for (int i = 0; i < n; i++) for (int j = 0; j < n; j++) o << " " << A[i][j].v; }
+    try { if (piv == 2) A.invert(); else A.invert(piv != 0); o << "OK"; for (int i = 0; i < n; i++) for (int j = 0; j < n; j++) o << " " << A[i][j].v; }
     catch (FMatrixError&) { o << "EXC FMatrixError"; }
     catch (C02DivByZero&) { o << "EXC DivByZero"; }
   } else o << "UNKNOWN-OP";
   return o.str();
 }
 
-template<int n> static std::string run_F(const std::string& op, bool piv, const VL& v)
+template<int n> static std::string run_F(const std::string& op, int piv, const VL& v)
 {
   FieldMatrix<GFp, n, n> A; FieldVector<GFp, n> x, b;
   return run_dense(A, x, b, op, n, piv, v);
 }
-static std::string run_D(const std::string& op, int n, bool piv, const VL& v)
+// kind X: FieldMatrix built by the converting constructor from a DynamicMatrix; x is a DynamicVector, b a FieldVector
+template<int n> static std::string run_X(const std::string& op, int piv, const VL& v)
+{
+  DynamicMatrix<GFp> D(n, n);
+  for (int i = 0; i < n; i++) for (int j = 0; j < n; j++) D[i][j] = GFp(v[i * n + j]);
+  FieldMatrix<GFp, n, n> A(D); DynamicVector<GFp> x(n); FieldVector<GFp, n> b;
+  return run_dense(A, x, b, op, n, piv, v, false);
+}
+// kind Y: DynamicMatrix assigned from a FieldMatrix, then copy-constructed; x is a FieldVector, b a DynamicVector
+template<int n> static std::string run_Y(const std::string& op, int piv, const VL& v)
+{
+  FieldMatrix<GFp, n, n> Fm;
+  for (int i = 0; i < n; i++) for (int j = 0; j < n; j++) Fm[i][j] = GFp(v[i * n + j]);
+  DynamicMatrix<GFp> A0; A0 = Fm; DynamicMatrix<GFp> A(A0); FieldVector<GFp, n> x; DynamicVector<GFp> b(n);
+  return run_dense(A, x, b, op, n, piv, v, false);
+}
+template<int r, int c> static std::string run_nsqF()
+{
+  FieldMatrix<GFp, r, c> A(GFp(1)); DynamicVector<GFp> x(c), b(r);   // (FieldVectors of the two different sizes do not compile in solve)
+  std::ostringstream o;
+  const FieldMatrix<GFp, r, c>& Ac = A;
+  try { Ac.solve(x, b); o << "OK"; } catch (FMatrixError&) { o << "EXC FMatrixError"; } catch (C02DivByZero&) { o << "EXC DivByZero"; }
+  try { (void)Ac.determinant(); o << " OK"; } catch (FMatrixError&) { o << " EXC FMatrixError"; } catch (C02DivByZero&) { o << " EXC DivByZero"; }
+  try { A.invert(); o << " OK"; } catch (FMatrixError&) { o << " EXC FMatrixError"; } catch (C02DivByZero&) { o << " EXC DivByZero"; }
+  return o.str();
+}
+static std::string run_D(const std::string& op, int n, int piv, const VL& v)
 {
   DynamicMatrix<GFp> A(n, n); DynamicVector<GFp> x(n), b(n);
   return run_dense(A, x, b, op, n, piv, v);
@@ -127,8 +178,11 @@ int main(int argc, char** argv)
     VL v; long t; while (s >> t) v.push_back(t);
     GFp::P = p;
     std::string r = "BAD-CASE";
-    size_t need = (kind == "G") ? (op == "solve" ? 2 * n : n) : (op == "solve" ? n * n + n : n * n);
-    if (op == "nsq") r = run_nsq(n, piv);
+    size_t need = (kind == "G") ? (op == "solve" ? 2 * n : n) : ((op == "solve" || op == "seq") ? n * n + n : n * n);
+    if (op == "nsq" && kind == "F") {
+      if (n == 2 && piv == 3) r = run_nsqF<2, 3>(); else if (n == 3 && piv == 2) r = run_nsqF<3, 2>();
+      else if (n == 1 && piv == 2) r = run_nsqF<1, 2>(); else if (n == 4 && piv == 5) r = run_nsqF<4, 5>(); }
+    else if (op == "nsq") r = run_nsq(n, piv);
     else if (v.size() != need || n < 1) r = "BAD-CASE";
     else if (kind == "D") r = run_D(op, n, piv, v);
     else if (kind == "F") switch (n) {
@@ -136,6 +190,14 @@ int main(int argc, char** argv)
       case 3: r = run_F<3>(op, piv, v); break; case 4: r = run_F<4>(op, piv, v); break;
       case 5: r = run_F<5>(op, piv, v); break; case 6: r = run_F<6>(op, piv, v); break;
       case 7: r = run_F<7>(op, piv, v); break; case 8: r = run_F<8>(op, piv, v); break; }
+    else if (kind == "X") switch (n) {
+      case 1: r = run_X<1>(op, piv, v); break; case 2: r = run_X<2>(op, piv, v); break;
+      case 3: r = run_X<3>(op, piv, v); break; case 4: r = run_X<4>(op, piv, v); break;
+      case 5: r = run_X<5>(op, piv, v); break; case 6: r = run_X<6>(op, piv, v); break; }
+    else if (kind == "Y") switch (n) {
+      case 1: r = run_Y<1>(op, piv, v); break; case 2: r = run_Y<2>(op, piv, v); break;
+      case 3: r = run_Y<3>(op, piv, v); break; case 4: r = run_Y<4>(op, piv, v); break;
+      case 5: r = run_Y<5>(op, piv, v); break; case 6: r = run_Y<6>(op, piv, v); break; }
     else if (kind == "G") switch (n) {
       case 1: r = run_G<1>(op, v); break; case 2: r = run_G<2>(op, v); break;
       case 3: r = run_G<3>(op, v); break; case 4: r = run_G<4>(op, v); break;
